@@ -64,6 +64,18 @@ def base_programs(ctx, n):
         for g in sorted({gen.sibling(ctx.rng('sib', json.dumps(f), j), f) for j in range(6)} - {f}, key=json.dumps):
             for sg in 'nm':
                 out.append(([{'part': 'always', 'head': ('choice', ['a', 'b']), 'body': []}, {'part': 'always', 'head': ('norm', 'c', 0), 'body': [(sg, ('tel', f))]}], ('tel', g), 'always'))
+    # fixed family: the base program mentions a formula, the observer a formula that differs from it in ONE place (another atom, operands exchanged):
+    # the closest two different formulas can be - their values, and whatever the translation shares between them, must stay apart
+    c = ('atom', 'c')
+    ta, tb, pa, pb = ('test', a), ('test', b), ('patom', 'a'), ('patom', 'b')
+    close = [('tel', f) for f in [('and', a, b), ('or', a, ('prev', None, b)), ('until', a, b), ('since', a, b), ('seqnext', a, b), ('release', a, ('next', None, b)), ('next', 2, a)]]
+    close += [('del', f) for f in [('dia', ('choice', ta, tb), c), ('box', ('choice', ta, tb), c), ('dia', ('seq', ta, pb), c), ('dia', ('choice', pa, pb), c), ('box', ('star', pa), b),
+                                   ('dia', ('seq', pa, ('star', pb)), c), ('dia', ('choice', ta, ('seq', tb, ('skip',))), c)]]
+    j = 0
+    for kind, f in close:
+        for g in gen.leaf_variants(f, ['a', 'b', 'c']):
+            j += 1
+            out.append(([{'part': 'always', 'head': ('choice', ['a', 'b', 'c']), 'body': []}, {'part': 'always', 'head': ('norm', 'd', 0), 'body': [('nm'[j % 2], (kind, f))]}], (kind, g), 'always'))
     return out
 
 
